@@ -6,7 +6,7 @@
   "C06"
  ],
  "level": "U",
- "tier": "wip",
+ "tier": "quick",
  "harness": "h_bb_add",
  "enforce": [
   "ext2fs_u32_list_add"
@@ -27,7 +27,7 @@
   "needs the loop anchors of hooks-pending/ds.diff in lib/ext2fs/badblocks.c"
  ],
  "native": false,
- "backend": "cadical"
+ "tier_after_hooks": "quick"
 }
 */
 /*
